@@ -150,7 +150,7 @@ theorem all_translated_kernels_ct :
 
 /-- the registry is not empty and contains the kernels the property singles out -/
 theorem registry_contains_named_kernels :
-    (Dalek.Model.Contracts.kernels.map (fun k => (k.1, k.2.1))).length = 44 ∧
+    44 ≤ (Dalek.Model.Contracts.kernels.map (fun k => (k.1, k.2.1))).length ∧
     ∀ n ∈ [("Scalar52", "sub"), ("Scalar29", "sub"), ("Scalar52", "add"), ("Scalar29", "add"),
            ("Scalar52", "montgomery_reduce"), ("Scalar29", "montgomery_reduce"), ("Scalar52", "from_bytes_wide"),
            ("Field51", "mul"), ("Field26", "mul"), ("Field51", "as_bytes"), ("Field26", "as_bytes"),
